@@ -122,11 +122,26 @@ ValuesIn(obs, cells, row, col) ==
 Grids == {[xmin |-> 0, ymin |-> 0, rx |-> rx, ry |-> ry, ncol |-> CeilDiv(w, rx), nrow |-> CeilDiv(h, ry), w |-> w, h |-> h] :
              rx \in Res, ry \in Res, w \in 1..GW, h \in 1..GH}
 Seqs3 == UNION {[1..n -> AVals] : n \in 0..3}
+\* Mode "req": computeAggregates serves a LIST of requests on one feature from ONE list of values per cell (the list is
+\* shared by every map of the feature).  One action per request; vals is the shared list.  With Legacy = TRUE the median
+\* sorts by removing from the list it was handed when that list holds no NaN (no copy was needed to drop them) - the
+\* requests that follow then see an emptied cell.
 Init == \/ Mode = "cell" /\ g \in Grids /\ P = <<0, 0>> /\ vals = <<>> /\ ph = 0
         \/ Mode = "agg" /\ g = 0 /\ P = <<0, 0>> /\ vals \in Seqs3 /\ ph = 1
-Next == Mode = "cell" /\ ph = 0 /\ ph' = 1 /\ UNCHANGED <<g, vals>> /\ P' \in (0..g.w) \X (0..g.h)
+        \/ Mode = "req" /\ P = <<0, 0>> /\ ph = 3 /\ \E s \in Seqs3, a \in Ops, b \in Ops, c \in Ops :
+                               vals = s /\ g = [orig |-> s, asked |-> <<a, b, c>>, res |-> <<>>]
+Serve == /\ Mode = "req" /\ Len(g.res) < Len(g.asked)
+         /\ LET op == g.asked[Len(g.res) + 1] IN
+               /\ g' = [g EXCEPT !.res = Append(@, AggAlgo(op, vals))]
+               /\ vals' = IF Legacy /\ op = "co_median" /\ NonNaN(vals) = vals THEN <<>> ELSE vals
+         /\ UNCHANGED <<P, ph>>
+Next == \/ Mode = "cell" /\ ph = 0 /\ ph' = 1 /\ UNCHANGED <<g, vals>> /\ P' \in (0..g.w) \X (0..g.h)
+        \/ Serve
 Spec == Init /\ [][Next]_vars
 GetCellInFootprint == (Mode = "cell" /\ ph = 1) =>
    LET c == GetCellAlgo(g, P) IN InRange(g, c[1], c[2]) /\ Footprint(g, c[1], c[2], P)
 AggIsDefinition == (Mode = "agg" /\ ph = 1) => \A op \in Ops : AggAlgo(op, vals) = AggDef(op, vals)
+\* whatever the order and repetition of the requests, each one is answered from the values located in the cell
+RequestOrderIrrelevant == Mode = "req" => /\ vals = g.orig
+                                          /\ \A k \in DOMAIN g.res : g.res[k] = AggDef(g.asked[k], g.orig)
 =============================================================================
